@@ -311,6 +311,27 @@ fn pow2(r: &mut SimRng) -> f64 {
     2.0_f64.powi(below(r, 41) as i32 - 20)
 }
 
+/// One shape in three is a value at which implementations tend to branch (see
+/// `envelope::special_cross`): a fast path taken at shape == 1/2, 1, 2 ... must still be
+/// an exact affine image for every scale.
+fn special_or(r: &mut SimRng, generic: f64) -> f64 {
+    let d = 2.0_f64.powi(-12);
+    const N: u64 = 10;
+    match below(r, 3 * N) {
+        0 => 0.5,
+        1 => 1.0,
+        2 => 2.0,
+        3 => 3.0,
+        4 => 0.25,
+        5 => 4.0,
+        6 => 1.0 + d,
+        7 => 1.0 - d,
+        8 => 2.0 + 2.0 * d,
+        9 => 2.0 - 2.0 * d,
+        _ => generic,
+    }
+}
+
 /// (base, target) for a family; `r` drives the random choices.
 fn gen_pair(fam: Family, s: Scalar, r: &mut SimRng) -> (DistSpec, DistSpec) {
     let f32_ = s == Scalar::F32;
@@ -351,6 +372,7 @@ fn gen_pair(fam: Family, s: Scalar, r: &mut SimRng) -> (DistSpec, DistSpec) {
         Family::Cauchy | Family::Gumbel => (mk(&[0.0, 1.0]), mk(&[loc(r), scale(r)])),
         Family::Frechet => {
             let shape = if f32_ { logu(r, 0.25, 1e2) } else { logu(r, 0.06, 1e3) };
+            let shape = special_or(r, shape);
             (mk(&[0.0, 1.0, shape]), mk(&[loc(r), scale(r), shape]))
         }
         Family::SkewNormal => {
@@ -358,7 +380,10 @@ fn gen_pair(fam: Family, s: Scalar, r: &mut SimRng) -> (DistSpec, DistSpec) {
                 0 => 0.0,
                 1 => 1.0,
                 2 => -1.0,
-                _ => lin(r, -8.0, 8.0),
+                _ => {
+                    let g = lin(r, -8.0, 8.0);
+                    special_or(r, g)
+                }
             };
             (mk(&[0.0, 1.0, shape]), mk(&[loc(r), scale(r), shape]))
         }
@@ -369,14 +394,17 @@ fn gen_pair(fam: Family, s: Scalar, r: &mut SimRng) -> (DistSpec, DistSpec) {
                 1 => logu(r, 0.05, 0.999),
                 _ => logu(r, 1.001, 1e3),
             };
+            let shape = special_or(r, shape);
             (mk(&[shape, 1.0]), mk(&[shape, scale(r)]))
         }
         Family::Weibull => {
             let shape = if f32_ { logu(r, 0.05, 1e2) } else { logu(r, 0.006, 1e3) };
+            let shape = special_or(r, shape);
             (mk(&[1.0, shape]), mk(&[scale(r), shape]))
         }
         Family::Pareto => {
             let shape = if f32_ { logu(r, 0.25, 1e3) } else { logu(r, 0.06, 1e4) };
+            let shape = special_or(r, shape);
             (mk(&[1.0, shape]), mk(&[scale(r), shape]))
         }
         Family::InverseGaussian => {
